@@ -204,12 +204,33 @@ Definition guard_js (c : jcase) : bool :=
                       complete_view c sd &&
                       spec_keys_ok (leaf_specs c sv sd)) (jstructs_of_order c)).
 
+(* member names that collide under case folding (computed from what go/types shows of the shadow struct):
+   encoding/json silently drops such fields; that behaviour is not modelled *)
+Definition shadow_keys_collide (o : jobs) : bool :=
+  negb (nodup_str (map (fun r : string * string * string => lower (snd r)) (jo_shadow o))).
+
+(* the hypotheses of the round-trip theorem, evaluated on the model's output for every struct with JSON code *)
+Definition aligned_js (c : jcase) : bool :=
+  match run_getset (jc_pkg c) (jc_flags c) (jc_fuel c) (jc_order c) [] with
+  | COk (out, v) =>
+      forallb (fun t => match find_struct (jc_pkg c) "" t, find_out t out with
+                        | Some sd, Some (d, nd) =>
+                            match flatten (jc_pkg c) (jc_flags c) (jc_fuel c) sd with
+                            | COk (fields, _) =>
+                                let jd := make_json (jc_flags c) sd d fields in
+                                negb (jd_json jd) || (json_aligned (jc_pkg c) v (jc_fuel c) sd jd && json_keys_ok jd)
+                            | _ => true end
+                        | _, _ => true end) (jc_order c)
+  | _ => true
+  end.
+
 (* verdicts as in CtorGetSetCorr *)
 Definition jverdict (c : jcase) : N :=
   if existsb (fun o => N.eqb (jo_status o) 5) (jc_structs c) then 3%N
-  else if guard_js c then
+  else if guard_js c && aligned_js c then
     if Pb_js c then (if agree_js c then 0%N else 1%N) else 2%N
-  else if existsb (fun o => N.eqb (jo_status o) 3) (jc_structs c) || agree_js c then 3%N else 1%N.
+  else if existsb (fun o => N.eqb (jo_status o) 3) (jc_structs c) || existsb shadow_keys_collide (jc_structs c) ||
+          agree_js c then 3%N else 1%N.
 
 Fixpoint jmismatches_from (i : N) (cs : list jcase) : list (N * N) :=
   match cs with
